@@ -1,30 +1,34 @@
 """C16 programs that pass `check` raise no runtime type errors."""
-REG_DRAFT = dict(
+REG_DRAFT = dict(   # rename to REG once the findings below are triaged (fixed in /repo or listed in known_findings.json)
     engine='E1-enum',
-    technique='bounded-exhaustive enumeration of fully annotated programs of a typed grammar and of every single-point mutation of each, real `check` then real interpreter',
+    technique='bounded-exhaustive enumeration of fully annotated programs of a typed grammar and of every single-point mutation of each (deviation bound 1, 2 for small programs), real `check` then real interpreter',
     text=("Base programs: fixed prefix (user enum Color, user struct Pt) + one function f with <=2 parameters over {Int, String, Bool, List<Int>, "
-          "Option<Int>, Color, Pt} whose body is one of 71 typed templates (arithmetic/comparison/equality/logic/concat operators, String/List/Option methods, "
-          "match on Option/enum incl. wildcard, field access, struct and list literals, if, let with and without annotation, closures passed to map/filter, "
-          "calls to a second user function, built-ins and constructors) + a main part calling f with two well-typed literal argument vectors. "
-          "Depth 2 = one slot of a template expanded by every expression template of the slot's type. "
-          "Mutants: EVERY single-point edit of each base program: each subexpression replaced by each of 19 literal alternatives (every grammar type, wrong-payload "
-          "Option/List, tuple, closure, constructor, Float, Unit, throw) and every variable/function name in scope or unbound; operator, callee, method name, "
-          "field name, struct field/type name, pattern (11 alternatives) and every annotation (10 alternatives) replaced; an argument/parameter/struct field/"
-          "closure parameter dropped or added; a match arm or an else dropped. "
-          "quick: depth 1 (canonical parameter fill) with all edits, plus depth 2 for one outer context per (inner template, role of the slot) with all edits "
-          "inside the expanded slot. thorough: depth 1 with every parameter/literal fill and depth 2 for every outer context with all edits, plus every PAIR "
-          "of disjoint edits (reduced alphabet) of the depth-1 programs (deviation bound 2). "
-          "Each program is checked (`front` job = the code path of `garden check`); programs with no error and no type-related warning are run (tick limit 50000). "
+          "Option<Int>, Color, Pt} whose body is one of 72 typed templates (arithmetic/comparison/equality/logic/concat operators, String/List/Option methods, "
+          "match on Option/enum incl. wildcard, field access, struct and list literals, if, let with and without annotation, for loop with assignment, closures "
+          "passed to map/filter, calls to a second user function, to built-ins and to constructors) + a main part calling f with two well-typed literal argument "
+          "vectors. Depth 2 = one slot of a template expanded by every expression template of the slot's type. "
+          "Mutants = EVERY single-point edit of each base program: each subexpression replaced by each of 19 literal alternatives (every grammar type, wrong-payload "
+          "Option/List, empty list, tuple, closure, constructor, Float, Unit, throw) and by every name in scope, an unbound name and the function names; operator, "
+          "callee, method name (17), field name, struct field/type name, pattern (11) and every annotation (10) replaced; an argument / parameter / struct field / "
+          "closure parameter dropped or added; a match arm or an else dropped; binders renamed. "
+          "quick: depth 1 (canonical parameter fill) with all edits + depth 2 for one outer context per (inner template, role of the slot) with all edits inside "
+          "the expanded slot (11-literal alphabet): ~43k programs. thorough: depth 1 with every parameter/literal fill and depth 2 for every outer context, all "
+          "edits (~395k), plus every PAIR of disjoint edits (11-literal alphabet, leaves only) of the 72 depth-1 programs (~393k): deviation bound 2. "
+          "Each program goes through the code path of `garden check`; programs with no error and no type-related warning are run (tick limit 50000). "
           "Oracle: the run does not end in an exception whose message matches one of the type-related templates of src/eval.rs "
-          "(wrong type, arity, unbound variable, unknown method/field/type, non-exhaustive or ill-formed match). Exhaustive within these bounds."),
+          "(wrong type, arity, unbound variable, unknown method/field/type, non-exhaustive or ill-formed match). Exhaustive within these bounds; "
+          "an enumeration at this level is what relates the checker's rules to the interpreter's runtime checks, which no reftest does."),
     note=("'check reports no errors' is read strictly: no diagnostic of severity error AND no warning other than the listed lints (unused, never called, "
-          "unnecessary let, ...); programs whose only type-related report is a warning (e.g. comparing values of different types) count as reported and are "
-          "tallied separately. Annotations range over the core types only (no `Any`, no type parameters: gradual typing makes the property trivially false "
-          "there). Every runtime message is classified by an explicit template table; an unclassified message is a machinery error, not a pass. "
-          "Value-level exceptions (division by zero, or_throw on None, substring range, throw, tick/stack limit) are not violations. "
-          "Programs deeper than depth 2, loops, assignment, user generics and methods defined by the user are not covered."),
+          "unnecessary let, ...); programs whose only type-related report is a warning (comparing values of different types) count as reported, are tallied "
+          "separately and are never flagged. Annotations range over the core types only (no `Any`, no type parameters: gradual typing makes the property "
+          "trivially false there). Every runtime message is classified by an explicit template table; an unclassified message is a machinery error, not a pass. "
+          "Value-level exceptions (division by zero, or_throw on None, substring range, throw, tick/stack limit) are not violations. A well-typed base program "
+          "that check rejects (checker incompleteness) is counted, not flagged. Signature = mutation class (syntactic category, role of the mutated node, type "
+          "family before→after) + runtime error class; one checker defect can surface under several signatures. "
+          "Not covered: programs deeper than depth 2, while loops, user generics, user-defined methods, imports, tests."),
     design_ref='DESIGN.md §6 C16',
 )
+LEVEL = "model_checking"
 
 import collections, hashlib, json, re
 from ..core import Machinery
@@ -246,7 +250,7 @@ class Explorer:
             self.process(fu, followup=False)
 
     def setv(self, it, v):
-        if self.keep_verdicts or it.get("want_verdict"):
+        if self.keep_verdicts:
             self.verdict[it["key"]] = v
 
     def report(self, it, cls, message):
@@ -393,8 +397,7 @@ def run(ctx):
         raise Machinery(f"{ex.n['mutants that do not parse']} of {ex.n['programs']} generated programs do not parse")
     if rejected < 1000 or accepted < 1000 or value_exc < 20:
         raise Machinery(f"vacuous exploration: rejected={rejected} accepted={accepted} accepted-with-value-level-exception={value_exc}")
-    for k in sorted(ex.n):
-        ctx.outcome("count: " + k, ex.n[k])
+    ctx.cov["counts"] = {k: ex.n[k] for k in sorted(ex.n)}
     ctx.cov["lint_warning_kinds_seen"] = dict(ex.warn_kinds.most_common())
     ctx.add(states=ex.n["programs"], transitions=ex.n["programs"] + ex.n["executions"], nontrivial=accepted)
     for k in ("accepted-ok", "accepted-value-exception", "rejected"):
